@@ -322,6 +322,22 @@ func checkC13(c *C13Case, st *VStats) *VFailure {
 						return vfail("diff: no severe entry in Errors() names the malformed item %q (variant %d; entries %+v)", n, i, d.Errs)
 					}
 				}
+				// an item injected into both sides is malformed twice: each occurrence has its own entry
+				occ := map[string]int{}
+				for _, n := range need {
+					occ[n]++
+				}
+				for n, k := range occ {
+					got := 0
+					for _, e := range d.Errs {
+						if e.Severe && (strings.Contains(e.Msg, n) || strings.Contains(e.Loc, n)) {
+							got++
+						}
+					}
+					if got < k {
+						return vfail("diff: the malformed item %q is present %d times over the two inputs but only %d severe entries name it (variant %d; entries %+v)", n, k, got, i, d.Errs)
+					}
+				}
 				if f := fatalImpliesError("diff", d.Errs, d.Err, len(d.Ents)); f != nil {
 					return f
 				}
